@@ -234,8 +234,32 @@ def replay_one(arg):
             if matched in {m for m, _ in allowed}:
                 out.append(("estimate-lost-or-leftover-wrong", "leftover-mismatch", "matched ok, leftovers %s not as specified" % sorted(left), rep))
             else:
-                out.append(("not-a-greedy-two-stage-outcome", "matching-mismatch", "impl %s not among spec outcomes" % pr, rep))
+                bad = [(e, g) for e, g in matched if not scene_valid(sc, e, g)]
+                if bad:
+                    # a pair the statement forbids outright (other frame, or not strictly inside the radius / above the IoU threshold of the
+                    # ground truth's label): C01's clause, whatever the rest of the assignment looks like
+                    out.append(("invalid-pair-matched", "invalid-pair-matched", "pairs %s are not matchable in this scene; impl %s" % (sorted(bad), pr), rep))
+                else:
+                    out.append(("not-a-greedy-two-stage-outcome", "matching-mismatch", "impl %s not among spec outcomes" % pr, rep))
     return n, out
+
+
+def scene_valid(sc, e, g):
+    """SceneValid of MC_MatchingScene.tla (1-based ids): same frame and strictly within the threshold of the ground truth's label"""
+    if sc["efr"][e - 1] != sc["gfr"][g - 1]:
+        return False
+    if not sc["radius"]:
+        return True
+    gl = sc["glab"][g - 1]
+    targets = list(sc["targets"])
+    if gl not in targets:
+        return True
+    num, den = sc["radius"][targets.index(gl)]
+    (ex, ey), (gx, gy) = sc["epos"][e - 1], sc["gpos"][g - 1]
+    if sc["mode"] in ("iou2d", "iou3d"):
+        inter = max(0, 2 - abs(ex - gx)) * max(0, 2 - abs(ey - gy))
+        return inter * den > num * (8 - inter)
+    return ((ex - gx) ** 2 + (ey - gy) ** 2) * den * den < num * num
 
 
 def _nontrivial(sc, allowed):
